@@ -156,6 +156,7 @@ func runC13(r *run) {
 					log.fails = func(n int) bool { return n < k && sched&(1<<n) != 0 }
 					log.partial = partial
 					log.short = partial && sched%2 == 1
+					log.slicey = !partial && sched%3 == 0
 					msg := fmt.Sprintf("user-record-%d", sched)
 					panicked := ""
 					func() {
